@@ -8,7 +8,8 @@ distances are compared squared.
 
 A *history* is any list of calls, accepted or rejected:
 legacy `LOp` = place / move / remove / get_neighbors (which builds the cache),
-experimental `EOp` = new agent / position assignment / `position += v` / `agent.remove()`.
+experimental `EOp` = new agent / position assignment / `position += v` / `agent.remove()` / a user write through the public
+`space.agent_positions` view (`raw`, not validated by anything) — so every `∀ ops` below includes histories with such writes.
 `lrun c ops` / `erun c cap ops` is the model state after the history on a fresh space with bounds `c`
 (and initial capacity `cap`); `lspec c ops` / `espec c ops` is the property's own bookkeeping of the
 same history: the agents placed and not removed, in order, the value last assigned to each, and (experimental)
@@ -103,9 +104,10 @@ theorem C10_exp_positions_all_histories (c : ECfg) (cap : Nat) (ops : List EOp) 
     exact ⟨by rw [agentGet_of_not_mem h.inv hn, h.gone], getPos_of_not_mem h.inv hn⟩
 
 /-- Experimental frame: a call about another agent (creation — with or without growth of the array —,
-    assignment, removal with compaction) does not change what agent `a` reads back. -/
+    assignment, removal with compaction, a write through the `agent_positions` view into another agent's row or beyond
+    the view) does not change what agent `a` reads back. -/
 theorem C10_exp_frame (c : ECfg) (cap : Nat) (ops : List EOp) (op : EOp) (a : Aid)
-    (ha : a ∈ (erun c cap ops).active) (hne : op.target ≠ a) :
+    (ha : a ∈ (erun c cap ops).active) (hne : op.target (erun c cap ops) ≠ some a) :
     getPos (erun c cap (ops ++ [op])) a = getPos (erun c cap ops) a := by
   have h := (erun_refines c cap ops).inv
   simp only [erun, List.foldl_append, List.foldl_cons, List.foldl_nil]
@@ -120,19 +122,22 @@ theorem C10_exp_index_maps_consistent (c : ECfg) (cap : Nat) (ops : List EOp) :
   let h := (erun_refines c cap ops).inv
   ⟨h.len, h.cap, h.nodup, h.idx⟩
 
-/-- Experimental: every assigned position (by the setter or by `+=`) lies inside the bounds. -/
-theorem C10_exp_positions_inside (c : ECfg) (hw : c.WF) (ops : List EOp) :
+/-- Experimental: every position assigned through the agent API (by the setter or by `+=`) lies inside the bounds — in
+    every history whose writes through the `agent_positions` view, if any, wrote points of the space (the view does not
+    validate: `C10_exp_raw_view_write`, and the example below it, show an agent put outside a bounded space that way). -/
+theorem C10_exp_positions_inside (c : ECfg) (hw : c.WF) (ops : List EOp)
+    (hraw : ∀ i p, EOp.raw i p ∈ ops → inBounds c.dims p = true) :
     ∀ a p, (espec c ops).pos a = some p → inBounds c.dims p = true := by
-  suffices H : ∀ (ops : List EOp) (st : ESpec),
+  suffices H : ∀ (ops : List EOp) (st : ESpec), (∀ i p, EOp.raw i p ∈ ops → inBounds c.dims p = true) →
       (∀ a p, st.pos a = some p → inBounds c.dims p = true) →
       ∀ a p, (ops.foldl (especStep c) st).pos a = some p → inBounds c.dims p = true from
-    H ops _ (by simp)
+    H ops _ hraw (by simp)
   intro ops
   induction ops with
-  | nil => intro st h; exact h
+  | nil => intro st _ h; exact h
   | cons op ops ih =>
-    intro st h
-    apply ih
+    intro st hraw h
+    apply ih _ (fun i p hm => hraw i p (List.mem_cons_of_mem _ hm))
     have hassign : ∀ (a : Aid) (p : Pos) (b : Aid) (q : Pos),
         (match eassign c p with
           | some p' => ({ st with pos := upd st.pos a (some p') } : ESpec)
@@ -169,6 +174,15 @@ theorem C10_exp_positions_inside (c : ECfg) (hw : c.WF) (ops : List EOp) :
       · split
         · rename_i q _; exact hassign a (vadd q v)
         · exact h
+      · exact h
+    | raw i p =>
+      simp only [especStep]; split
+      · rename_i a _
+        intro b q hb
+        by_cases hba : b = a
+        · simp only [upd, hba, if_true, Option.some.injEq] at hb; subst hb
+          exact hraw i p (List.mem_cons_self ..)
+        · simp only [upd, hba, if_false] at hb; exact h b q hb
       · exact h
 
 /-! ## calls the property allows never raise -/
@@ -258,7 +272,7 @@ theorem C10_exp_removed_agent_is_dead (argpart : List Int → Nat → List Nat) 
     agentRemove s a = .error .attr ∧ (∀ r, agentNir s a r = .error .attr) ∧
     (∀ k, agentNn argpart s a k = .error .attr) ∧ (∀ j, agentPoke s a j = .error .attr) ∧
     (∀ pt, distancesOf s pt (some [a]) = .error .key) ∧
-    (∀ op : EOp, op.target = a → estep s op = s) := by
+    (∀ op : EOp, op.target s = some a → estep s op = s) := by
   dsimp only
   intro hr
   have h := erun_refines c cap ops
@@ -271,10 +285,13 @@ theorem C10_exp_removed_agent_is_dead (argpart : List Int → Nat → List Nat) 
     fun pt => by simp [distancesOf, rowsOf, collect, hn, Except.map], ?_⟩
   intro op ht
   cases op with
-  | new b => simp only [EOp.target] at ht; subst ht; simp [estep, hg]
-  | set b p => simp only [EOp.target] at ht; subst ht; simp [estep, agentSet, hg]
-  | remove b => simp only [EOp.target] at ht; subst ht; simp [estep, agentRemove, hg]
-  | iadd b v => simp only [EOp.target] at ht; subst ht; simp [estep, agentIadd, hget]
+  | new b => simp only [EOp.target, Option.some.injEq] at ht; subst ht; simp [estep, hg]
+  | set b p => simp only [EOp.target, Option.some.injEq] at ht; subst ht; simp [estep, agentSet, hg]
+  | remove b => simp only [EOp.target, Option.some.injEq] at ht; subst ht; simp [estep, agentRemove, hg]
+  | iadd b v => simp only [EOp.target, Option.some.injEq] at ht; subst ht; simp [estep, agentIadd, hget]
+  | raw i p =>
+    -- no row of the view belongs to a removed agent: a write through the view cannot reach it
+    exact absurd (List.mem_of_getElem? ht) ((h.inv.not_mem_iff a).mpr hn)
 
 /-- … and removal is what kills it: on an agent of the space `remove()` succeeds, takes exactly that agent out of
     `space.agents`, marks the object removed, and no other agent's position changes. -/
@@ -324,14 +341,18 @@ theorem C10_exp_agent_api (argpart : List Int → Nat → List Nat) (c : ECfg) (
     `space.agents` with no validation — that agent then reports `p` even if `p` is outside the bounds of a bounded space
     or un-wrapped on a torus — and touches nothing else: membership, order, index maps, counts, capacity and every other
     agent's position are as before.  For a value the assignment rule stores as it is (in bounds) the write is
-    indistinguishable from `agent.position = p`.  Beyond the view it is an `IndexError`. -/
+    indistinguishable from `agent.position = p`.  Beyond the view it is an `IndexError`.  The write is a call of the
+    histories (`EOp.raw`): the bookkeeping `espec` records `p` as the agent's position, and every history theorem of this
+    file (positions, index maps, exact radius / k-nearest / distance answers) holds after any number of such writes —
+    they can misplace an agent, they cannot corrupt the space. -/
 theorem C10_exp_raw_view_write (c : ECfg) (cap : Nat) (ops : List EOp) (i : Nat) (p : Pos) :
     let s := erun c cap ops
     (∀ a, s.active[i]? = some a →
       ∃ s', rawWrite s i p = .ok s' ∧ s'.active = s.active ∧ s'.a2i = s.a2i ∧ s'.n = s.n ∧ s'.cap = s.cap ∧
         s'.gone = s.gone ∧ agentGet s' a = .ok p ∧ (∀ b, b ≠ a → agentGet s' b = agentGet s b) ∧
+        s' = erun c cap (ops ++ [.raw i p]) ∧ (espec c (ops ++ [.raw i p])).pos a = some p ∧
         (inBounds c.dims p = true → s' = erun c cap (ops ++ [.set a p]))) ∧
-    (s.active.length ≤ i → rawWrite s i p = .error .index) := by
+    (s.active.length ≤ i → rawWrite s i p = .error .index ∧ erun c cap (ops ++ [.raw i p]) = s) := by
   dsimp only
   have h := erun_refines c cap ops
   refine ⟨fun a ha => ?_, fun hi => ?_⟩
@@ -339,10 +360,16 @@ theorem C10_exp_raw_view_write (c : ECfg) (cap : Nat) (ops : List EOp) (i : Nat)
     have hlt : i < (erun c cap ops).view := by rw [h.inv.view]; exact h.inv.lt hidx
     have hmem : a ∈ (erun c cap ops).active := List.mem_of_getElem? ha
     refine ⟨{ erun c cap ops with buf := upd (erun c cap ops).buf i p }, by simp [rawWrite, hlt], rfl, rfl, rfl, rfl, rfl,
-      ?_, fun b hb => ?_, fun hin => ?_⟩
+      ?_, fun b hb => ?_, ?_, ?_, fun hin => ?_⟩
     · rw [agentGet_of_mem (einv_set h.inv i p) (by exact hmem), getPos_set h.inv hidx]; simp
     · simp only [agentGet]
       rw [getPos_set h.inv hidx]; simp [hb]
+    · simp only [erun, List.foldl_append, List.foldl_cons, List.foldl_nil, estep, rawWrite]
+      have hlt' : i < (List.foldl estep (einit c cap) ops).view := hlt
+      simp [hlt']
+    · have hm : (espec c ops).members[i]? = some a := by rw [← h.active]; exact ha
+      simp only [espec, List.foldl_append, List.foldl_cons, List.foldl_nil, especStep] at hm ⊢
+      simp [hm, upd]
     · have hstep : erun c cap (ops ++ [EOp.set a p]) = estep (erun c cap ops) (EOp.set a p) := by
         simp only [erun, List.foldl_append, List.foldl_cons, List.foldl_nil]
       rw [hstep]
@@ -356,7 +383,9 @@ theorem C10_exp_raw_view_write (c : ECfg) (cap : Nat) (ops : List EOp) (i : Nat)
         have hji : j = i := by rw [hidx] at hj; cases hj; rfl
         rw [he, hq, hji]
   · have : ¬ i < (erun c cap ops).view := by rw [h.inv.view, h.inv.len]; omega
-    simp [rawWrite, this]
+    refine ⟨by simp [rawWrite, this], ?_⟩
+    have this' : ¬ i < (List.foldl estep (einit c cap) ops).view := this
+    simp [erun, List.foldl_append, estep, rawWrite, this']
 
 /-! ## radius queries -/
 
@@ -872,6 +901,15 @@ example : nearestNeighbors (fun _ _ => [0, 1, 2, 3, 4])
 example : (rawWrite (erun exE 0 exEOps) 1 [999, 0, 0]).toOption.map (fun s => agentGet s 3) = some (.ok [999, 0, 0]) := by
   rfl
 example : inBounds exE.dims [999, 0, 0] = false := by decide
+/-- … and a history with writes through the view: the bookkeeping follows them, the queries answer for the written rows -/
+def exERaw : List EOp := exEOps ++ [.raw 1 [999, 0, 0], .raw 7 [0, 0, 0], .raw 0 [1, 1, 1], .remove 2, .new 5, .set 5 [0, 0, 0]]
+example : (erun exE 0 exERaw).active = [3, 4, 5] := by decide
+example : (espec exE exERaw).pos 3 = some [999, 0, 0] := by decide
+example : agentGet (erun exE 0 exERaw) 3 = .ok [999, 0, 0] := by rfl
+example : agentsInRadius (erun exE 0 exERaw) [990, 0, 0] 10 = [(3, 81)] := by decide
+/-- the hypothesis of `C10_exp_positions_inside` holds of a history with an in-bounds write through the view -/
+example : ∀ i p, EOp.raw i p ∈ exEOps ++ [.raw 1 [64, 0, 0]] → inBounds exE.dims p = true := by
+  intro i p h; simp [exEOps] at h; obtain ⟨_, rfl⟩ := h; decide
 end Examples
 
 end Mesa.Cont
